@@ -169,6 +169,29 @@ func main() {
 	for _, init := range []bool{true, false} {
 		cases = append(cases, caseSpec{Kind: "interop", ImplInit: init, Net: nets[0], GI: 1, GR: 2, NPk: 3, Sched: "big", PrefixK: -1, KeyIdx: 2, ImplKey: 28})
 	}
+	// transport objects are independent of each other: sessions in which a second
+	// object of the process starts its handshake between the two steps of the one
+	// under test.  Sequential and first: if objects do influence each other, what
+	// the parallel sessions below would see depends on their interleaving.
+	nOv := 0
+	for _, init := range []bool{true, false} {
+		for _, g := range []int{0, 1, 100, 4095} {
+			for _, dec := range [][]int{nil, {0}, {3, 0}} {
+				cs := caseSpec{Kind: "interop", ImplInit: init, Net: nets[nOv%3], GI: g, GR: (g + 1) % 4096, DecI: dec, NPk: 3, Sched: "cycle", PrefixK: -1, KeyIdx: nOv % nRefKeys, ImplKey: 40 + nOv, Overlap: true}
+				protect(r, func() { runInterop(cs, x(-1000+nOv)) })
+				r.Eval(1)
+				r.Trace(1)
+				r.Nontrivial(fmt.Sprintf("interop/%+v", cs))
+				nOv++
+			}
+		}
+	}
+	r.Add("interop_sessions_with_an_overlapping_second_handshake", int64(nOv))
+	if sink.count() > 0 {
+		r.Cap("transport objects influence each other (see the violations): the parallel sessions were not run")
+		report(r, sink, "")
+		r.Finish(false)
+	}
 	var doneC int64
 	var sampled int64
 	protect(r, func() {
